@@ -1,9 +1,10 @@
 \* C12 thorough: adds every two-hot word and nibble patterns, and the fifth base
 CONSTANTS
+  FixedChannelSelect = TRUE
   FixedWindowRaw = FALSE
   FixedWatchdogRestart = FALSE
   ValMode = 2
   NBases = 7
 SPECIFICATION Spec
-INVARIANTS TypeOK ReadBack NonAliasing HiddenFrame ReadPurity PathsAgree ChannelIndependent
+INVARIANTS TypeOK ReadBack NonAliasing HiddenFrame ReadPurity PathsAgree ChannelIndependent WindowReachable
 CHECK_DEADLOCK FALSE
